@@ -71,15 +71,42 @@ class FileCache:
         """
         write_fname = os.path.join(self.root_path, file_name)
         write_path = os.path.dirname(write_fname)
+        # topmost path component this write creates (None when an existing file is overwritten)
+        created = None
+        if use_fsync:
+            p = write_fname
+            while p and not os.path.exists(p):
+                created, p = p, os.path.dirname(p)
         os.makedirs(write_path, exist_ok=True)
         with open(os.path.join(self.root_path, file_name), 'wb') as f:
             f.write(new_file_contents)
             if use_fsync:
                 f.flush()
                 os.fsync(f.fileno())
+        if created is not None:
+            # a new name is durable only once its directory is: sync every directory that got a new entry
+            self._fsync_dirs(write_path, os.path.dirname(created))
         contents, memory_usage = self.process_contents(new_file_contents)
         self.update_file_futures_and_memory(file_name, memory_usage=memory_usage)
         return contents
+
+    @staticmethod
+    def _fsync_dirs(first, last):
+        """
+        fsync the directory `first` and its ancestors up to and including `last`.
+        """
+        if os.name == 'nt':
+            return  # a directory cannot be opened for fsync on Windows
+        d = first
+        while True:
+            fd = os.open(d or '.', os.O_RDONLY)
+            try:
+                os.fsync(fd)
+            finally:
+                os.close(fd)
+            if d == last or not d or d == os.path.dirname(d):
+                break
+            d = os.path.dirname(d)
 
     def update_file_access_time(self, file_name):
         """
